@@ -23,7 +23,7 @@
 -/
 namespace ApiFu.C15
 
-abbrev Pid := Nat
+-- (promise ids are plain `Nat`s, allocated in creation order)
 
 /-- A `graphql.ResolveResult`: an abstract value and whether `Error` is non-nil. -/
 structure Res where
@@ -34,15 +34,15 @@ structure Res where
 /-- A goroutine started by `Go` whose body has not returned yet. `waits` are the promises a
     `chain`/`join` body receives from, in order (empty for a plain `Go`). `id` is its `ch`. -/
 structure Task where
-  id : Pid
-  waits : List Pid
+  id : Nat
+  waits : List Nat
   deriving DecidableEq, Repr
 
 /-- One entry of `apiRequest.batches`. -/
 structure Batch where
   key : Nat
   items : List Nat
-  dests : List Pid
+  dests : List Nat
   deriving DecidableEq, Repr
 
 /-- One invocation of a batch function (ghost log). -/
@@ -50,7 +50,7 @@ structure Call where
   wave : Nat
   key : Nat
   items : List Nat
-  dests : List Pid
+  dests : List Nat
   results : List Res
   deriving DecidableEq, Repr
 
@@ -66,51 +66,53 @@ structure Cfg where
   deriving DecidableEq, Repr
 
 structure St where
-  next : Pid := 0                          -- number of promises created so far
+  next : Nat := 0                          -- number of promises created so far
   running : List Task := []                -- bodies still running
-  blocked : List (Pid × Res) := []         -- `asyncResolution{Result, Dest}` offered on the channel
-  delivered : List (Pid × Res) := []       -- what was put into each promise's 1-slot buffer
+  blocked : List (Nat × Res) := []         -- `asyncResolution{Result, Dest}` offered on the channel
+  delivered : List (Nat × Res) := []       -- what was put into each promise's 1-slot buffer
   batches : List Batch := []
-  chained : List Pid := []
+  chained : List Nat := []
   phase : Phase := .exec
   destFull : Bool := false                 -- a send to a promise whose slot was already used (would block)
   crashed : Bool := false                  -- a batch function returned more results than items (index panic)
+  orphaned : List Nat := []                -- promises of a flushed batch whose function returned too few results:
+                                           -- nothing will ever be sent to them
   -- ghost
   wave : Nat := 0                          -- number of idle-handler invocations so far
   calls : List Call := []
-  registered : List (Nat × Nat × Pid) := []  -- (batch key, item, promise) in registration order
-  finished : List (Pid × Res) := []        -- what each task body returned
+  registered : List (Nat × Nat × Nat) := []  -- (batch key, item, promise) in registration order
+  finished : List (Nat × Res) := []        -- what each task body returned
   progress : Bool := false                 -- this idle-handler invocation flushed or delivered a non-chained promise
   deriving Repr
 
 inductive Label where
-  | go (t : Pid)
-  | batch (k : Nat) (item : Nat) (p : Pid)
-  | chain (t : Pid) (ps : List Pid)
-  | fin (t : Pid) (r : Res)
+  | go (t : Nat)
+  | batch (k : Nat) (item : Nat) (p : Nat)
+  | chain (t : Nat) (ps : List Nat)
+  | fin (t : Nat) (r : Res)
   | idle
   | flush (rs : List (Nat × List Res))
-  | recvBlock (t : Pid)
-  | drain (t : Pid)
+  | recvBlock (t : Nat)
+  | drain (t : Nat)
   | idleRet
   | ret
-  | release (t : Pid)
+  | release (t : Nat)
   deriving DecidableEq, Repr
 
-def lookup (dl : List (Pid × Res)) (p : Pid) : Option Res :=
+def lookup (dl : List (Nat × Res)) (p : Nat) : Option Res :=
   match dl.find? (fun x => x.1 == p) with
   | some x => some x.2
   | none => none
 
-def isDelivered (s : St) (p : Pid) : Bool := s.delivered.any (fun x => x.1 == p)
+def isDelivered (s : St) (p : Nat) : Bool := s.delivered.any (fun x => x.1 == p)
 
 /-- `dest <- result` on a promise (capacity 1, written at most once if the bookkeeping is right). -/
-def St.deliver (s : St) (p : Pid) (r : Res) : St :=
+def St.deliver (s : St) (p : Nat) (r : Res) : St :=
   if isDelivered s p then { s with destFull := true } else { s with delivered := (p, r) :: s.delivered }
 
 /-- The body of `chain`/`join`: receive from each promise in order, stop at the first error.
     `none` = still blocked in `<-p`; `some none` = all inputs received; `some (some r)` = input error `r`. -/
-def awaitAll (dl : List (Pid × Res)) : List Pid → Option (Option Res)
+def awaitAll (dl : List (Nat × Res)) : List Nat → Option (Option Res)
   | [] => some none
   | p :: ps =>
     match lookup dl p with
@@ -118,7 +120,7 @@ def awaitAll (dl : List (Pid × Res)) : List Pid → Option (Option Res)
     | some r => if r.err then some (some r) else awaitAll dl ps
 
 /-- A sequence of sends to promises. -/
-def St.deliverAll (s : St) : List (Pid × Res) → St
+def St.deliverAll (s : St) : List (Nat × Res) → St
   | [] => s
   | x :: xs => (s.deliver x.1 x.2).deliverAll xs
 
@@ -132,7 +134,8 @@ def flushOne (wave : Nat) (rs : List (Nat × List Res)) (s : St) (b : Batch) : S
   let res := resultsFor rs b.key
   let s1 := s.deliverAll (b.dests.zip res)
   { s1 with calls := ⟨wave, b.key, b.items, b.dests, res⟩ :: s1.calls,
-            crashed := s1.crashed || decide (b.dests.length < res.length) }
+            crashed := s1.crashed || decide (b.dests.length < res.length),
+            orphaned := b.dests.drop res.length ++ s1.orphaned }
 
 /-- The flush phase: every pending batch function is called once (the goroutines only touch their
     own batch's promises, so their interleaving does not matter; the handler waits for all). -/
@@ -148,7 +151,7 @@ def finOK (e : Option Res) (r : Res) : Bool :=
   | some x => r == x
 
 /-- `Batch`'s returned resolver: append to the batch of this key, creating it if needed. -/
-def addToBatch (bs : List Batch) (k item : Nat) (p : Pid) : List Batch :=
+def addToBatch (bs : List Batch) (k item : Nat) (p : Nat) : List Batch :=
   match bs with
   | [] => [⟨k, [item], [p]⟩]
   | b :: rest =>
@@ -161,6 +164,11 @@ def errFinished : Res := ⟨0, true⟩
 def finishBatches (s : St) : St :=
   let s1 := s.deliverAll ((s.batches.flatMap (·.dests)).map (fun p => (p, errFinished)))
   { s1 with batches := [] }
+
+/-- `resolution := <-r.asyncResolutions; resolution.Dest <- resolution.Result` (idle handler), or
+    the released task's own `ch <- result`: the offer of `t` disappears, its promise gets `r`. -/
+def took (s : St) (t : Nat) (r : Res) : St :=
+  ({ s with blocked := s.blocked.filter (fun x => x.1 != t) }).deliver t r
 
 def step (c : Cfg) (s : St) : Label → Option St
   | .go t =>
@@ -198,14 +206,13 @@ def step (c : Cfg) (s : St) : Label → Option St
     match lookup s.blocked t with
     | none => none
     | some r =>
-      let s1 := ({ s with blocked := s.blocked.filter (fun x => x.1 != t) }).deliver t r
-      if s.chained.contains t then some { s1 with chained := s.chained.erase t }
-      else some { s1 with phase := .drain, progress := true }
+      if s.chained.contains t then some { took s t r with chained := s.chained.erase t }
+      else some { took s t r with phase := .drain, progress := true }
   | .drain t =>
     if s.crashed || s.destFull || s.phase != .drain then none else
     match lookup s.blocked t with
     | none => none
-    | some r => some (({ s with blocked := s.blocked.filter (fun x => x.1 != t) }).deliver t r)
+    | some r => some (took s t r)
   | .idleRet =>
     if s.crashed || s.destFull || s.phase != .drain then none else some { s with phase := .exec }
   | .ret =>
@@ -215,7 +222,7 @@ def step (c : Cfg) (s : St) : Label → Option St
     if s.crashed || !c.fixed || s.phase != .returned then none else
     match lookup s.blocked t with
     | none => none
-    | some r => some (({ s with blocked := s.blocked.filter (fun x => x.1 != t) }).deliver t r)
+    | some r => some (took s t r)
 
 /-- Run a label sequence; `none` as soon as a label is not enabled. Returns the index of the
     first rejected label on failure. -/
